@@ -9,6 +9,7 @@ case "$SEED" in (*[!0-9]*|'') SEED=0;; esac
 HERE="$(cd "$(dirname "$0")/.." && pwd)"
 cd "$HERE/harness" || exit 2
 export CARGO_NET_OFFLINE=true
+export VERIF_DIR="$HERE"
 export RAYON_NUM_THREADS="${RAYON_NUM_THREADS:-16}"
 mkdir -p "$HERE/evidence" "$HERE/replays"
 LOG="$HERE/harness/target/build-$ID.log"
